@@ -1154,6 +1154,8 @@ def _edges(repo, col, R="R-C11-edges"):
     col.check(ok, R, fi, "ends are matched against the compartments of the selected nodes", "isin(incl_comps)",
               "ends are not matched against the selected compartments", node=s.node)
     cand = [s2 for (w, g), s2 in st.items() if w == "n" and s2.value.op == "mcall" and s2.value.name == "intersect1d"]
+    if not cand:
+        col.unk(R, fi, "edge-selected view keeps the pre and post compartments of its edges (within the parent)", "the nodes of an edge-selected view were not found", node=fi.node)
     if cand:
         s2 = cand[0]
         ok = T.find(s2.value, lambda x: x.op == "list" and {a_.name for a_ in x.args if a_.op == "const"} ==
